@@ -704,31 +704,6 @@ theorem mapCode_len (t : Array UInt8) (cut : Nat) (hs : allPairs shapeOK 0 t.toL
     · exact enc32_len3 code h3
     · exact enc32_len _
 
-theorem flatMap_len_le (f : Nat → List UInt8) (l : List (Nat × Nat)) (h : ∀ p ∈ l, (f p.1).length ≤ p.2) :
-    (l.flatMap fun cn => f cn.1).length ≤ (l.map (·.2)).sum := by
-  induction l with
-  | nil => simp
-  | cons p t ih =>
-    simp only [List.flatMap_cons, List.length_append, List.map_cons, List.sum_cons]
-    have := h p (by simp)
-    have := ih (fun q hq => h q (by simp [hq]))
-    omega
-
-/-- `toUpperCase`/`toLowerCase` on any byte string: inside the allocation, and never longer than the input -/
-theorem caseMap_len (t : Array UInt8) (cut : Nat) (hs : allPairs shapeOK 0 t.toList = true)
-    (hcut : 128 ≤ cut) (hsz : cut * 2 ≤ t.size) (s : List UInt8) :
-    ∃ out, caseMap t cut s = some out ∧ out.length ≤ s.length := by
-  have h1 := enum_some (mem s) (hasNul_mem s)
-  cases hr : enumAll (mem s) with
-  | none => simp [hr] at h1
-  | some l =>
-    refine ⟨l.flatMap fun cn => mapCode t cut cn.1, by simp [caseMap, hr], ?_⟩
-    have hok := enum_ok (mem s) l hr
-    have hsum := enum_sum (mem s) l hr
-    have := flatMap_len_le (mapCode t cut) l (fun p hp => mapCode_len t cut hs hcut hsz p (hok p hp))
-    have := strlen_mem s
-    omega
-
 /-- ASCII text enumerates byte by byte -/
 theorem enum_ascii (s : List UInt8) (h : ∀ b ∈ s, b ≠ 0 ∧ b.toNat < 128) :
     enumAll (mem s) = some (s.map fun b => (b.toNat, 1)) := by
@@ -741,138 +716,6 @@ theorem enum_ascii (s : List UInt8) (h : ∀ b ∈ s, b ≠ 0 ∧ b.toNat < 128)
     simp only [hb.1, if_false, is1_true hb.2, if_true]
     rw [ih (fun c hc => h c (by simp [hc]))]
     simp
-
-/-! ## unique decodability of the lower-cased forms (for `nocase_iff_lower_eq`) -/
-
-/-- a continuation byte 0x80–0xBF -/
-def cont (b : UInt8) : Prop := 128 ≤ b.toNat ∧ b.toNat < 192
-
-/-- the shapes of the byte groups `toLowerCase` emits per code point: an ASCII byte, a two-byte table entry or
-    2-byte encoding with a lead first byte, a 3- or 4-byte encoding whose last bytes are continuation bytes -/
-def Word (w : List UInt8) : Prop :=
-  (∃ b, w = [b] ∧ b.toNat < 128) ∨ (∃ a b, w = [a, b] ∧ 192 ≤ a.toNat) ∨
-  (∃ a b c, w = [a, b, c] ∧ 192 ≤ a.toNat ∧ cont c) ∨ (∃ a b c d, w = [a, b, c, d] ∧ 192 ≤ a.toNat ∧ cont c ∧ cont d)
-
-theorem Word.ne_nil {w : List UInt8} (h : Word w) : w ≠ [] := by
-  rcases h with ⟨b, rfl, _⟩ | ⟨a, b, rfl, _⟩ | ⟨a, b, c, rfl, _⟩ | ⟨a, b, c, d, rfl, _⟩ <;> simp
-
-theorem Word.head_not_cont {w : List UInt8} (h : Word w) (x : UInt8) (r : List UInt8) (e : w = x :: r) : ¬ cont x := by
-  unfold cont
-  rcases h with ⟨b, rfl, hb⟩ | ⟨a, b, rfl, ha⟩ | ⟨a, b, c, rfl, ha, _⟩ | ⟨a, b, c, d, rfl, ha, _⟩ <;>
-    (simp only [List.cons.injEq] at e; obtain ⟨rfl, _⟩ := e; omega)
-
-theorem flatten_head_not_cont (A : List (List UInt8)) (hA : ∀ w ∈ A, Word w) (x : UInt8) (r : List UInt8)
-    (e : A.flatten = x :: r) : ¬ cont x := by
-  cases A with
-  | nil => simp at e
-  | cons w A' =>
-    have hw := hA w (by simp)
-    simp only [List.flatten_cons] at e
-    match w, hw.ne_nil with
-    | y :: w', _ =>
-      simp only [List.cons_append, List.cons.injEq] at e
-      obtain ⟨rfl, _⟩ := e
-      exact hw.head_not_cont y w' rfl
-
-theorem word_head_eq {w1 w2 x1 x2 : List UInt8} (h1 : Word w1) (h2 : Word w2)
-    (n1 : ∀ x r, x1 = x :: r → ¬ cont x) (n2 : ∀ x r, x2 = x :: r → ¬ cont x)
-    (e : w1 ++ x1 = w2 ++ x2) : w1 = w2 := by
-  rcases h1 with ⟨b, rfl, hb⟩ | ⟨a, b, rfl, ha⟩ | ⟨a, b, c, rfl, ha, hc⟩ | ⟨a, b, c, d, rfl, ha, hc, hd⟩ <;>
-  rcases h2 with ⟨b', rfl, hb'⟩ | ⟨a', b', rfl, ha'⟩ | ⟨a', b', c', rfl, ha', hc'⟩ | ⟨a', b', c', d', rfl, ha', hc', hd'⟩ <;>
-  simp only [List.cons_append, List.nil_append, List.cons.injEq] at e
-  all_goals first
-    | (exfalso; obtain ⟨rfl, _⟩ := e; omega)
-    | (exfalso; exact n1 _ _ e.2.2 (by assumption))
-    | (exfalso; exact n1 _ _ e.2.2.2 (by assumption))
-    | (exfalso; exact n2 _ _ e.2.2.symm (by assumption))
-    | (exfalso; exact n2 _ _ e.2.2.2.symm (by assumption))
-    | (simp [e.1]; done)
-    | (simp [e.1, e.2.1]; done)
-    | (simp [e.1, e.2.1, e.2.2.1]; done)
-    | (simp [e.1, e.2.1, e.2.2.1, e.2.2.2.1]; done)
-
-theorem flatten_inj (A B : List (List UInt8)) (hA : ∀ w ∈ A, Word w) (hB : ∀ w ∈ B, Word w)
-    (e : A.flatten = B.flatten) : A = B := by
-  induction A generalizing B with
-  | nil =>
-    cases B with
-    | nil => rfl
-    | cons w B' =>
-      exfalso
-      have := (hB w (by simp)).ne_nil
-      simp only [List.flatten_nil, List.flatten_cons] at e
-      cases w with
-      | nil => exact this rfl
-      | cons y w' => simp at e
-  | cons w1 A' ih =>
-    cases B with
-    | nil =>
-      exfalso
-      have := (hA w1 (by simp)).ne_nil
-      simp only [List.flatten_nil, List.flatten_cons] at e
-      cases w1 with
-      | nil => exact this rfl
-      | cons y w' => simp at e
-    | cons w2 B' =>
-      simp only [List.flatten_cons] at e
-      have hA' : ∀ w ∈ A', Word w := fun w hw => hA w (by simp [hw])
-      have hB' : ∀ w ∈ B', Word w := fun w hw => hB w (by simp [hw])
-      have hw : w1 = w2 := word_head_eq (hA w1 (by simp)) (hB w2 (by simp))
-        (fun x r ex => flatten_head_not_cont A' hA' x r ex) (fun x r ex => flatten_head_not_cont B' hB' x r ex) e
-      subst hw
-      rw [ih B' hA' hB' (List.append_cancel_left e)]
-
-theorem ofNat_toNat_ge {x : Nat} (h : x < 256) : (UInt8.ofNat x).toNat = x := ofNat_toNat_lt h
-
-/-- every group emitted for a code point below 2^21 is a `Word` (table shape fact + the encoder's arithmetic form) -/
-theorem word_of_mapCode (t : Array UInt8) (cut : Nat) (hs : allPairs shapeOK 0 t.toList = true)
-    (hcut : 128 ≤ cut) (hsz : cut * 2 ≤ t.size) (code : Nat) (hc : code < 2097152) : Word (mapCode t cut code) := by
-  unfold mapCode
-  split
-  · rename_i hlt
-    have := table_fact shapeOK t hs code (by omega)
-    unfold shapeOK at this
-    simp only [Bool.and_eq_true] at this
-    simp only [tableBytes]
-    by_cases h2 : t.getD (code * 2 + 1) 0 = 0
-    · have h1 := this.2
-      simp only [h2, beq_self_eq_true, if_true, decide_eq_true_eq] at h1
-      left
-      refine ⟨t.getD (code * 2) 0, by simp [h2], ?_⟩
-      exact UInt8.lt_iff_toNat_lt.mp h1
-    · have h1 := this.2
-      have hb : (t.getD (code * 2 + 1) 0 == 0) = false := by simpa using h2
-      simp only [hb, Bool.false_eq_true, if_false, decide_eq_true_eq] at h1
-      right; left
-      have hne : (t.getD (code * 2 + 1) 0 != 0) = true := by simpa using h2
-      refine ⟨t.getD (code * 2) 0, t.getD (code * 2 + 1) 0, by rw [if_pos hne], ?_⟩
-      exact UInt8.le_iff_toNat_le.mp h1
-  · rename_i hge
-    rw [reencode_eq code (by omega)]
-    unfold enc32
-    have a1 : ¬ ((code : Int) < 0x80) := by omega
-    simp only [a1, if_false, Int.toNat_natCast]
-    by_cases h2 : code < 0x800
-    · have : (code : Int) < 0x800 := by omega
-      simp only [this, if_true]
-      rw [enc2_arith code h2]
-      right; left
-      exact ⟨_, _, rfl, by rw [ofNat_toNat_lt (by omega)]; omega⟩
-    · have b2 : ¬ ((code : Int) < 0x800) := by omega
-      by_cases h3 : code < 0x10000
-      · have : (code : Int) < 0x10000 := by omega
-        simp only [b2, this, if_true, if_false]
-        rw [enc3_arith code h3]
-        right; right; left
-        refine ⟨_, _, _, rfl, by rw [ofNat_toNat_lt (by omega)]; omega, ?_⟩
-        unfold cont; rw [ofNat_toNat_lt (by omega)]; omega
-      · have b3 : ¬ ((code : Int) < 0x10000) := by omega
-        simp only [b2, b3, if_false]
-        rw [enc4_arith code hc]
-        right; right; right
-        refine ⟨_, _, _, _, rfl, by rw [ofNat_toNat_lt (by omega)]; omega, ?_, ?_⟩
-        · unfold cont; rw [ofNat_toNat_lt (by omega)]; omega
-        · unfold cont; rw [ofNat_toNat_lt (by omega)]; omega
 
 theorem ofNat_inj {x y : Nat} (hx : x < 256) (hy : y < 256) (h : UInt8.ofNat x = UInt8.ofNat y) : x = y := by
   have := congrArg UInt8.toNat h
@@ -1029,41 +872,6 @@ theorem step_iff (c d : Nat) (hc : c < 2097152) (hd : d < 2097152) :
       · omega
   · simp only [hgt, if_false, Bool.and_eq_true, beq_iff_eq]
     rw [lowerOf_le hs ho hce hsz c (by omega), lowerOf_le hs ho hce hsz d (by omega), tableBytes_eq_iff]
-
-/-- the comparison loop of `equalsNocase` decides equality of the concatenated lower-cased groups -/
-theorem nocaseLoop_iff (A B : List (Nat × Nat)) (hA : ∀ p ∈ A, okPair p) (hB : ∀ p ∈ B, okPair p) :
-    nocaseLoop A B = true ↔ A.flatMap (fun p => lowerOf p.1) = B.flatMap (fun p => lowerOf p.1) := by
-  have lt : ∀ p : Nat × Nat, okPair p → p.1 < 2097152 := by
-    intro p hp; unfold okPair at hp; omega
-  have words : ∀ L : List (Nat × Nat), (∀ p ∈ L, okPair p) → ∀ w ∈ L.map (fun p => lowerOf p.1), Word w := by
-    intro L hL w hw
-    simp only [List.mem_map] at hw
-    obtain ⟨p, hp, rfl⟩ := hw
-    exact word_of_mapCode toLowercaseU8 lowerCut hs (by decide) (by rw [hsz]; decide) p.1 (lt p (hL p hp))
-  have key : nocaseLoop A B = true ↔ A.map (fun p => lowerOf p.1) = B.map (fun p => lowerOf p.1) := by
-    induction A generalizing B with
-    | nil => cases B <;> simp [nocaseLoop]
-    | cons a A' ih =>
-      cases B with
-      | nil => simp [nocaseLoop]
-      | cons b B' =>
-        have ha := lt a (hA a (by simp))
-        have hb := lt b (hB b (by simp))
-        have hstep := step_iff hs ho hce hsz a.1 b.1 ha hb
-        have ih' := ih B' (fun p hp => hA p (by simp [hp])) (fun p hp => hB p (by simp [hp]))
-        simp only [nocaseLoop, List.map_cons, List.cons.injEq]
-        by_cases hst : nocaseStep a.1 b.1 = true
-        · simp only [hst, if_true]
-          rw [ih']
-          constructor
-          · intro h; exact ⟨hstep.mp hst, h⟩
-          · intro h; exact h.2
-        · simp only [hst, Bool.false_eq_true, if_false, false_iff]
-          intro h; exact hst (hstep.mpr h.1)
-  rw [key, List.flatMap_def, List.flatMap_def]
-  constructor
-  · intro h; rw [h]
-  · intro h; exact flatten_inj _ _ (words A hA) (words B hB) h
 
 end nocase
 
